@@ -160,6 +160,11 @@ def sweep(ctx):
         for ev in hist:
             if ev[0] == 'tick' and not w.ties():
                 break
+            if ev[0] == 'wait' and w.next_deadline() is not None and w.clock.rightNow + ev[1] >= w.next_deadline() - 1e-9:
+                v.append(V('gap', 'sweep/timer-due-before-half-keepalive',
+                           'keepalive %d: a timer is due %.3fs after a PINGREQ/CONNACK, before k/2' % (
+                               k, w.next_deadline() - w.clock.rightNow)))
+                break
             if ev[0] == 'lossdeliver' and w.conn(0).pending_loss is None:
                 v.append(V('abort', 'sweep/not-aborted-after-silence', 'keepalive %d: no abort after an unanswered PINGREQ' % k))
                 break
